@@ -1,7 +1,437 @@
-(* C15 — lemmas. *)
-From Coq Require Import ZArith List Bool String Lia.
+(* C15 — lemmas behind Properties.v (array methods). *)
+From Coq Require Import ZArith List Bool String Lia Permutation OrderedTypeEx.
 From V.C15 Require Import Model Spec MethodTable.
 Open Scope Z_scope.
 
 Lemma table_matches_model_l : forall m, lookup (meth_name m) method_table = Some (by_pointer m, sig_of m).
+Proof. destruct m; reflexivity. Qed.
+
+(* ------------------------------------------------------------------ induction on nested elements *)
+Section ElemInd.
+  Variable P : elem -> Prop.
+  Hypothesis Hnull : P ENull.
+  Hypothesis Hbool : forall b, P (EBool b).
+  Hypothesis Hint : forall z, P (EInt z).
+  Hypothesis Hstr : forall s, P (EStr s).
+  Hypothesis Harr : forall l, Forall P l -> P (EArr l).
+  Fixpoint elem_ind' (e : elem) : P e :=
+    match e with
+    | ENull => Hnull | EBool b => Hbool b | EInt z => Hint z | EStr s => Hstr s
+    | EArr l => Harr l ((fix go (l : list elem) : Forall P l :=
+                           match l with [] => Forall_nil P | x :: r => Forall_cons x (elem_ind' x) (go r) end) l)
+    end.
+End ElemInd.
+
+(* ------------------------------------------------------------------ binding *)
+Lemma slot_bind2 : forall args i, (i < 2)%nat ->
+  slot i (bind [PSingle; PSingle] args) = match nth_error args i with Some a => a | None => ENull end.
+Proof.
+  intros args i Hi. destruct args as [|a [|b r]]; destruct i as [|[|i]]; try lia; reflexivity.
+Qed.
+Lemma slot_bind1 : forall args,
+  slot 0 (bind [PSingle] args) = match nth_error args 0 with Some a => a | None => ENull end.
+Proof. destruct args; reflexivity. Qed.
+
+Lemma zlen_app : forall (a b : list elem), zlen (a ++ b) = zlen a + zlen b.
+Proof. intros; unfold zlen; rewrite app_length; lia. Qed.
+Lemma zlen_nonneg : forall (l : list elem), 0 <= zlen l.
+Proof. intros; unfold zlen; lia. Qed.
+
+(* ------------------------------------------------------------------ push / unshift / pop / shift / reverse *)
+Lemma pop_spec : forall l : list elem,
+  m_pop l = match rev l with [] => (ENull, []) | x :: r => (x, rev r) end.
+Proof.
+  intros l. destruct l as [|a l']; [reflexivity|].
+  unfold m_pop. set (l := a :: l').
+  assert (Hne : l <> []) by discriminate.
+  rewrite (app_removelast_last ENull Hne) at 3.
+  rewrite rev_app_distr. cbn. rewrite rev_involutive. reflexivity.
+Qed.
+
+(* ------------------------------------------------------------------ slice *)
+Lemma firstn_zero_count : forall (l : list elem) a b, a <= 0 -> firstn (Z.to_nat a) (skipn b l) = [].
+Proof. intros l a b H. assert (Z.to_nat a = 0%nat) as -> by lia. reflexivity. Qed.
+
+Lemma slice_core : forall (l : list elem) (s e : Z),
+  let n := zlen l in
+  let start1 := if s <? 0 then n + s else s in
+  let end1 := if e <? 0 then n + e else e in
+  let start2 := if start1 <? 0 then 0 else start1 in
+  let end2 := if end1 >? n then n else end1 in
+  let start3 := if start2 >? end2 then end2 else start2 in
+  sub_list start3 end2 l =
+  take_from (rel_index s n) (Z.max (rel_index e n - rel_index s n) 0) l.
+Proof.
+  intros l s e n start1 end1 start2 end2 start3.
+  pose proof (zlen_nonneg l) as Hn. fold n in Hn.
+  unfold sub_list, take_from, rel_index.
+  subst start3 end2 start2 end1 start1.
+  destruct (Z.ltb_spec s 0); destruct (Z.ltb_spec e 0);
+  repeat match goal with
+  | |- context [if ?a <? ?b then _ else _] => destruct (Z.ltb_spec a b)
+  | |- context [if ?a >? ?b then _ else _] => rewrite (Z.gtb_ltb a b); destruct (Z.ltb_spec b a)
+  end;
+  first
+  [ rewrite !firstn_zero_count by lia; reflexivity
+  | match goal with
+    | |- firstn (Z.to_nat ?a) (skipn (Z.to_nat ?b) _) = firstn (Z.to_nat ?a') (skipn (Z.to_nat ?b') _) =>
+        replace a' with a by lia; replace b' with b by lia; reflexivity
+    end ].
+Qed.
+
+Lemma slice_is_spec : forall l args,
+  index_arg_ok args 0 && index_arg_ok args 1 = true ->
+  m_slice l (bind (sig_of MSlice) args) = EArr (js_slice l (opt_int args 0) (opt_int args 1)).
+Proof.
+  intros l args Hok. apply andb_true_iff in Hok. destruct Hok as [H0 H1].
+  unfold m_slice, js_slice. cbn [sig_of].
+  rewrite !slot_bind2 by lia. unfold index_arg_ok, opt_int in *.
+  destruct (nth_error args 0) as [[| | s0 | |]|]; try discriminate;
+  destruct (nth_error args 1) as [[| | e0 | |]|]; try discriminate; cbn [as_int is_null];
+  f_equal; apply slice_core.
+Qed.
+
+(* ------------------------------------------------------------------ splice *)
+Lemma splice_core : forall (l items : list elem) (s : Z) (dc : option Z),
+  let n := zlen l in
+  let dc0 := match dc with Some d => d | None => n end in
+  let start1 := if s <? 0 then n + s else s in
+  let start2 := if start1 <? 0 then 0 else start1 in
+  let start3 := if start2 >? n then n else start2 in
+  let dc1 := if dc0 <? 0 then 0 else dc0 in
+  let dc2 := if start3 + dc1 >? n then n - start3 else dc1 in
+  (sub_list start3 (start3 + dc2) l,
+   (firstn (Z.to_nat start3) l ++ items ++ skipn (Z.to_nat (start3 + dc2)) l)%list)
+  = js_splice l s dc items.
+Proof.
+  intros l items s dc n dc0 start1 start2 start3 dc1 dc2.
+  pose proof (zlen_nonneg l) as Hn. fold n in Hn.
+  unfold js_splice, sub_list, take_from, rel_index. fold n.
+  assert (Hk : start3 = (if s <? 0 then Z.max (n + s) 0 else Z.min s n)).
+  { subst start3 start2 start1.
+    destruct (Z.ltb_spec s 0); cbv iota;
+    repeat match goal with
+    | |- context [if ?a <? ?b then _ else _] => destruct (Z.ltb_spec a b); cbv iota
+    | |- context [if ?a >? ?b then _ else _] => rewrite (Z.gtb_ltb a b); destruct (Z.ltb_spec b a); cbv iota
+    end.
+    all: lia. }
+  rewrite <- Hk.
+  assert (Hs3 : 0 <= start3 <= n).
+  { rewrite Hk. destruct (Z.ltb_spec s 0); lia. }
+  assert (Hd : dc2 = match dc with None => n - start3 | Some c => Z.min (Z.max c 0) (n - start3) end).
+  { subst dc2 dc1 dc0. destruct dc as [c|];
+    repeat match goal with
+    | |- context [if ?a <? ?b then _ else _] => destruct (Z.ltb_spec a b); cbv iota
+    | |- context [if ?a >? ?b then _ else _] => rewrite (Z.gtb_ltb a b); destruct (Z.ltb_spec b a); cbv iota
+    end.
+    all: lia. }
+  rewrite <- Hd.
+  replace (start3 + dc2 - start3) with dc2 by lia. reflexivity.
+Qed.
+
+Lemma slot_bind3 : forall args,
+  slot 0 (bind [PSingle; PSingle; PVariadic] args) = match nth_error args 0 with Some a => a | None => ENull end /\
+  slot 1 (bind [PSingle; PSingle; PVariadic] args) = match nth_error args 1 with Some a => a | None => ENull end /\
+  slot 2 (bind [PSingle; PSingle; PVariadic] args) = EArr (skipn 2 args).
+Proof. destruct args as [|a [|b r]]; repeat split; reflexivity. Qed.
+
+Lemma splice_is_spec : forall l args s,
+  nth_error args 0 = Some (EInt s) -> index_arg_ok args 1 = true ->
+  m_splice l (bind (sig_of MSplice) args) =
+  (let (del, aft) := js_splice l s (opt_int args 1) (skipn 2 args) in (EArr del, aft)).
+Proof.
+  intros l args s H0 H1. unfold m_splice. cbn [sig_of].
+  destruct (slot_bind3 args) as [S0 [S1 S2]]. rewrite S0, S1, S2, H0. cbn [as_int items_of].
+  pose proof (splice_core l (skipn 2 args) s (opt_int args 1)) as Hc. cbn zeta in Hc.
+  unfold index_arg_ok, opt_int in *.
+  destruct (nth_error args 1) as [[| | d | |]|]; try discriminate; cbn [as_int is_null] in *;
+    rewrite <- Hc; reflexivity.
+Qed.
+
+(* ------------------------------------------------------------------ join *)
+Lemma join_str_js : forall e, join_str e = js_str e.
+Proof.
+  induction e using elem_ind'; try reflexivity.
+  cbn. f_equal. induction H as [|x r Hx _ IH]; [reflexivity|]. cbn. rewrite Hx, IH. reflexivity.
+Qed.
+Lemma map_join_str : forall l, map join_str l = map js_str l.
+Proof. intro l; apply map_ext; intro; apply join_str_js. Qed.
+
+(* ------------------------------------------------------------------ indexOf / includes *)
+Lemma find_elem_js : forall x l i, find_elem x i l = js_find_from x i l.
+Proof.
+  intros x l; induction l as [|y r IH]; intro i; [reflexivity|]. cbn.
+  replace (elem_equals y x) with (strict_eqb y x) by (destruct y, x; reflexivity).
+  destruct (strict_eqb y x); [reflexivity|apply IH].
+Qed.
+Lemma js_find_nil : forall x i, js_find_from x i [] = -1.
+Proof. reflexivity. Qed.
+
+Lemma index_of_is_spec : forall l args x,
+  nth_error args 0 = Some x -> index_arg_ok args 1 = true ->
+  index_of l (bind [PSingle; PSingle] args) = js_index_of l x (opt_int args 1).
+Proof.
+  intros l args x H0 H1. unfold index_of, js_index_of.
+  rewrite !slot_bind2 by lia. rewrite H0.
+  pose proof (zlen_nonneg l) as Hn. set (n := zlen l) in *.
+  assert (Hfrom : match as_int (match nth_error args 1 with Some a => a | None => ENull end) with
+                  | Some f => f | None => 0 end
+                  = match opt_int args 1 with Some f => f | None => 0 end).
+  { unfold index_arg_ok, opt_int in *. destruct (nth_error args 1) as [[| | f | |]|]; try discriminate; reflexivity. }
+  rewrite Hfrom. set (f0 := match opt_int args 1 with Some f => f | None => 0 end).
+  unfold rel_index. rewrite find_elem_js.
+  destruct (Z.ltb_spec f0 0).
+  - destruct (Z.ltb_spec (n + f0) 0).
+    + replace (Z.max (n + f0) 0) with 0 by lia.
+      destruct (Z.geb_spec 0 n).
+      * assert (n = 0) by lia. unfold n, zlen in H3. destruct l; [reflexivity|cbn in H3; lia].
+      * reflexivity.
+    + replace (Z.max (n + f0) 0) with (n + f0) by lia.
+      destruct (Z.geb_spec (n + f0) n); [lia|reflexivity].
+  - destruct (Z.ltb_spec f0 0); [lia|].
+    destruct (Z.geb_spec f0 n).
+    + replace (Z.min f0 n) with n by lia.
+      unfold n, zlen. rewrite Nat2Z.id. rewrite skipn_all. reflexivity.
+    + replace (Z.min f0 n) with f0 by lia. reflexivity.
+Qed.
+
+(* ------------------------------------------------------------------ flat *)
+Lemma flat_map_single : forall (l : list elem) (g : elem -> list elem),
+  (forall x, In x l -> g x = [x]) -> flat_map g l = l.
+Proof.
+  induction l as [|x r IH]; intros g H; [reflexivity|]. cbn.
+  rewrite (H x (or_introl eq_refl)). cbn. f_equal. apply IH. intros y Hy. apply H. right; exact Hy.
+Qed.
+Lemma js_flat_e_nonpos : forall d e, d <= 0 -> js_flat_e d e = [e].
+Proof.
+  intros d e Hd; destruct e; try reflexivity. cbn.
+  destruct (Z.ltb_spec 0 d); [lia|reflexivity].
+Qed.
+Lemma flatten_e_js : forall e d, 0 < d -> flatten_e d e = js_flat_e d e.
+Proof.
+  induction e using elem_ind'; intros d Hd; try reflexivity.
+  cbn. destruct (Z.ltb_spec 0 d); [|lia].
+  destruct (Z.leb_spec (d - 1) 0).
+  - symmetry. apply flat_map_single. intros x _. apply js_flat_e_nonpos. exact H1.
+  - clear H0. induction H as [|x r Hx _ IH]; [reflexivity|].
+    cbn. rewrite (Hx (d - 1)) by lia. f_equal. exact IH.
+Qed.
+Lemma flatten_js : forall l d, flatten d l = flat_map (js_flat_e d) l.
+Proof.
+  intros l d. unfold flatten. destruct (Z.leb_spec d 0).
+  - symmetry. apply flat_map_single. intros x _. apply js_flat_e_nonpos. exact H.
+  - apply flat_map_ext. intro e. apply flatten_e_js. exact H.
+Qed.
+Lemma flat_is_spec : forall l args, index_arg_ok args 0 = true ->
+  m_flat l (bind [PSingle] args) = EArr (js_flat l (opt_int args 0)).
+Proof.
+  intros l args H. unfold m_flat, js_flat. rewrite slot_bind1.
+  unfold index_arg_ok, opt_int in *.
+  destruct (nth_error args 0) as [[| | d | |]|]; try discriminate; cbn [is_null as_int];
+    rewrite flatten_js; reflexivity.
+Qed.
+
+(* ------------------------------------------------------------------ callback methods *)
+Lemma map_loop_spec : forall f all l i,
+  map_loop f all i l = map (fun p => f (snd p) (fst p) all) (indexed i l).
+Proof. intros f all l; induction l as [|x r IH]; intro i; [reflexivity|]. cbn. rewrite IH. reflexivity. Qed.
+Lemma filter_loop_spec : forall f all l i,
+  filter_loop f all i l = map snd (filter (fun p => truthy (f (snd p) (fst p) all)) (indexed i l)).
+Proof.
+  intros f all l; induction l as [|x r IH]; intro i; [reflexivity|]. cbn.
+  destruct (truthy (f x i all)); cbn; rewrite IH; reflexivity.
+Qed.
+Lemma find_loop_spec : forall f all l i,
+  find_loop f all i l = List.find (fun p => truthy (f (snd p) (fst p) all)) (indexed i l).
+Proof.
+  intros f all l; induction l as [|x r IH]; intro i; [reflexivity|]. cbn.
+  destruct (truthy (f x i all)); [reflexivity|apply IH].
+Qed.
+Lemma every_loop_spec : forall f all l i,
+  every_loop f all i l = forallb (fun p => truthy (f (snd p) (fst p) all)) (indexed i l).
+Proof.
+  intros f all l; induction l as [|x r IH]; intro i; [reflexivity|]. cbn.
+  destruct (truthy (f x i all)); [apply IH|reflexivity].
+Qed.
+Lemma find_some_spec : forall f all l i,
+  (match find_loop f all i l with Some _ => true | None => false end)
+  = existsb (fun p => truthy (f (snd p) (fst p) all)) (indexed i l).
+Proof.
+  intros f all l; induction l as [|x r IH]; intro i; [reflexivity|]. cbn.
+  destruct (truthy (f x i all)); [reflexivity|apply IH].
+Qed.
+Lemma flatmap_loop_spec : forall f all l i,
+  flatmap_loop f all i l =
+  flat_map (fun p => match f (snd p) (fst p) all with EArr x => x | y => [y] end) (indexed i l).
+Proof.
+  intros f all l; induction l as [|x r IH]; intro i; [reflexivity|]. cbn. rewrite IH.
+  unfold spread1. destruct (f x i all); reflexivity.
+Qed.
+Lemma reduce_loop_spec : forall f all l acc i,
+  reduce_loop f all acc i l = fold_left (fun a p => f a (snd p) (fst p) all) (indexed i l) acc.
+Proof. intros f all l; induction l as [|x r IH]; intros acc i; [reflexivity|]. cbn. apply IH. Qed.
+
+Lemma call_cb_is_spec_l : forall m f l p, spec_cb m f l = Some p -> call_cb m f l = p.
+Proof.
+  intros m f l p H; destruct m; cbn in H; try discriminate; injection H as <-; cbn [call_cb].
+  - rewrite map_loop_spec. reflexivity.
+  - rewrite filter_loop_spec. reflexivity.
+  - rewrite find_loop_spec. unfold js_find. destruct (find _ _) as [[i x]|]; reflexivity.
+  - rewrite find_loop_spec. unfold js_find. destruct (find _ _) as [[i x]|]; reflexivity.
+  - reflexivity.
+  - rewrite every_loop_spec. reflexivity.
+  - rewrite find_some_spec. reflexivity.
+  - rewrite flatmap_loop_spec. reflexivity.
+Qed.
+
+Lemma reduce_is_spec_l : forall f l init,
+  call_reduce f l init =
+  (js_reduce f l (match init with x :: _ => if is_null x then None else Some x | [] => None end), l).
+Proof.
+  intros f l init. unfold call_reduce, m_reduce, js_reduce. f_equal.
+  change (slot 1 (ENull :: bind [PSingle] init)) with (slot 0 (bind [PSingle] init)).
+  rewrite slot_bind1.
+  destruct init as [|x r]; cbn [nth_error is_null].
+  - destruct l as [|y t]; [reflexivity|apply reduce_loop_spec].
+  - destruct (is_null x) eqn:E.
+    + destruct l as [|y t]; [reflexivity|apply reduce_loop_spec].
+    + apply reduce_loop_spec.
+Qed.
+
+(* ------------------------------------------------------------------ sort: sorted, permutation, stable *)
+Definition str_le (a b : string) : Prop := String.ltb b a = false.
+Lemma leb_true_le : forall a b, String.leb a b = true -> str_le a b.
+Proof.
+  intros a b; unfold String.leb, str_le, String.ltb. rewrite (String.compare_antisym a b).
+  destruct (String.compare b a); simpl; congruence.
+Qed.
+Lemma leb_false_lt : forall a b, String.leb a b = false -> String.ltb b a = true.
+Proof.
+  intros a b; unfold String.leb, String.ltb. rewrite (String.compare_antisym a b).
+  destruct (String.compare b a); simpl; congruence.
+Qed.
+Lemma ltb_lt : forall a b, String.ltb a b = true <-> String_as_OT.lt a b.
+Proof.
+  intros a b. rewrite <- String_as_OT.cmp_lt. unfold String.ltb, String_as_OT.cmp.
+  destruct (String.compare a b); split; congruence.
+Qed.
+Lemma str_le_trans : forall a b c, str_le a b -> str_le b c -> str_le a c.
+Proof.
+  unfold str_le. intros a b c Hab Hbc.
+  destruct (String.ltb c a) eqn:Hca; [|reflexivity]. exfalso.
+  apply ltb_lt in Hca.
+  (* trichotomy on (a, b) and (b, c) through compare *)
+  unfold String.ltb in Hab, Hbc.
+  destruct (String.compare b a) eqn:Eba; try discriminate;
+  destruct (String.compare c b) eqn:Ecb; try discriminate.
+  - apply String.compare_eq_iff in Eba, Ecb. subst. exact (String_as_OT.lt_not_eq _ _ Hca eq_refl).
+  - apply String.compare_eq_iff in Eba. subst b.
+    assert (String_as_OT.lt a c).
+    { apply String_as_OT.cmp_lt. unfold String_as_OT.cmp. rewrite (String.compare_antisym a c), Ecb. reflexivity. }
+    exact (String_as_OT.lt_not_eq _ _ (String_as_OT.lt_trans _ _ _ Hca H) eq_refl).
+  - apply String.compare_eq_iff in Ecb. subst c.
+    assert (String_as_OT.lt a b).
+    { apply String_as_OT.cmp_lt. unfold String_as_OT.cmp. rewrite (String.compare_antisym a b), Eba. reflexivity. }
+    exact (String_as_OT.lt_not_eq _ _ (String_as_OT.lt_trans _ _ _ Hca H) eq_refl).
+  - assert (String_as_OT.lt a b).
+    { apply String_as_OT.cmp_lt. unfold String_as_OT.cmp. rewrite (String.compare_antisym a b), Eba. reflexivity. }
+    assert (String_as_OT.lt b c).
+    { apply String_as_OT.cmp_lt. unfold String_as_OT.cmp. rewrite (String.compare_antisym b c), Ecb. reflexivity. }
+    exact (String_as_OT.lt_not_eq _ _ (String_as_OT.lt_trans _ _ _ Hca (String_as_OT.lt_trans _ _ _ H H0)) eq_refl).
+Qed.
+
+Lemma insert_perm : forall e l, Permutation (e :: l) (insert_sorted e l).
+Proof.
+  intros e l; induction l as [|x r IH]; cbn; [apply Permutation_refl|].
+  destruct (String.leb (estr e) (estr x)); [apply Permutation_refl|].
+  eapply perm_trans; [apply perm_swap|]. apply perm_skip. exact IH.
+Qed.
+Lemma ssort_perm_l : forall l, Permutation l (ssort l).
+Proof.
+  unfold ssort. induction l as [|x r IH]; cbn; [constructor|].
+  eapply perm_trans; [apply perm_skip, IH|apply insert_perm].
+Qed.
+Lemma insert_keeps_sorted : forall e l, sorted_by_text l -> sorted_by_text (insert_sorted e l).
+Proof.
+  intros e l; induction l as [|x r IH]; cbn; intros H; [split; [intros y []|exact I]|].
+  destruct H as [Hx Hr]. destruct (String.leb (estr e) (estr x)) eqn:E.
+  - cbn. split; [|split; assumption].
+    apply leb_true_le in E.
+    intros y [<-|Hy]; [exact E|].
+    exact (str_le_trans _ _ _ E (Hx y Hy)).
+  - cbn. split; [|apply IH, Hr].
+    intros y Hy. apply (Permutation_in _ (Permutation_sym (insert_perm e r))) in Hy.
+    destruct Hy as [<-|Hy]; [|auto].
+    apply leb_false_lt in E. unfold String.ltb in *.
+    rewrite (String.compare_antisym (estr x) (estr e)) in E.
+    destruct (String.compare (estr e) (estr x)); simpl in E; congruence.
+Qed.
+Lemma ssort_sorted_l : forall l, sorted_by_text (ssort l).
+Proof. unfold ssort. induction l as [|x r IH]; cbn; [exact I|apply insert_keeps_sorted, IH]. Qed.
+
+Definition same_text_as (t : string) (e : elem) : bool := String.eqb (estr e) t.
+Lemma insert_filter : forall t e l,
+  filter (same_text_as t) (insert_sorted e l) =
+  if same_text_as t e then e :: filter (same_text_as t) l else filter (same_text_as t) l.
+Proof.
+  intros t e l; induction l as [|x r IH]; cbn.
+  - destruct (same_text_as t e); reflexivity.
+  - destruct (String.leb (estr e) (estr x)) eqn:E; cbn.
+    + destruct (same_text_as t e); reflexivity.
+    + rewrite IH. unfold same_text_as in *.
+      destruct (String.eqb (estr x) t) eqn:Ex; destruct (String.eqb (estr e) t) eqn:Ee; try reflexivity.
+      apply String.eqb_eq in Ex, Ee. rewrite Ex, Ee in E.
+      unfold String.leb in E. rewrite (String.compare_antisym t t) in E.
+      destruct (String.compare t t) eqn:C; simpl in E; try discriminate.
+      pose proof (String.compare_antisym t t) as A. rewrite C in A. discriminate.
+Qed.
+Lemma ssort_stable_l : forall t l, filter (same_text_as t) (ssort l) = filter (same_text_as t) l.
+Proof.
+  intros t l. unfold ssort. induction l as [|x r IH]; cbn; [reflexivity|].
+  rewrite insert_filter, IH. reflexivity.
+Qed.
+
+(* ------------------------------------------------------------------ every callback-free method *)
+Lemma call_is_spec_l : forall m l args p, spec_call m l args = Some p -> call m l args = p.
+Proof.
+  intros m l args p H; destruct m; cbn [spec_call] in H; try discriminate.
+  - (* push *) injection H as <-. unfold call, m_push. cbn. rewrite zlen_app. reflexivity.
+  - (* pop *) injection H as <-. unfold call. apply pop_spec.
+  - (* shift *) injection H as <-. reflexivity.
+  - (* unshift *) injection H as <-. unfold call, m_unshift. cbn. rewrite zlen_app. reflexivity.
+  - (* slice *)
+    destruct (index_arg_ok args 0 && index_arg_ok args 1) eqn:E; [|discriminate].
+    injection H as <-. unfold call. rewrite (slice_is_spec l args E). reflexivity.
+  - (* splice *)
+    destruct (nth_error args 0) as [[| | s | |]|] eqn:E0; try discriminate.
+    destruct (index_arg_ok args 1) eqn:E1; [|discriminate].
+    unfold call. rewrite (splice_is_spec l args s E0 E1).
+    destruct (js_splice l s (opt_int args 1) (skipn 2 args)) as [del aft]. injection H as <-. reflexivity.
+  - (* concat *) injection H as <-. reflexivity.
+  - (* join *)
+    unfold call, m_join. cbn [sig_of]. rewrite slot_bind1.
+    destruct args as [|a r]; [injection H as <-; cbn; rewrite map_join_str; reflexivity|].
+    destruct a; try discriminate; injection H as <-; cbn; rewrite map_join_str; reflexivity.
+  - (* reverse *) injection H as <-. reflexivity.
+  - (* indexOf *)
+    destruct args as [|x r] eqn:Ea; [discriminate|]. rewrite <- Ea in *.
+    destruct (index_arg_ok args 1) eqn:E1; [|discriminate]. injection H as <-.
+    unfold call, m_index_of. cbn [sig_of].
+    rewrite (index_of_is_spec l args x) by (try assumption; subst args; reflexivity). reflexivity.
+  - (* includes *)
+    destruct args as [|x r] eqn:Ea; [discriminate|]. rewrite <- Ea in *.
+    destruct (index_arg_ok args 1) eqn:E1; [|discriminate]. injection H as <-.
+    unfold call, m_includes. cbn [sig_of].
+    rewrite (index_of_is_spec l args x) by (try assumption; subst args; reflexivity). reflexivity.
+  - (* flat *)
+    destruct (index_arg_ok args 0) eqn:E; [|discriminate]. injection H as <-.
+    unfold call. cbn [sig_of]. rewrite (flat_is_spec l args E). reflexivity.
+Qed.
+
+(* ------------------------------------------------------------------ frame *)
+Lemma nonmutating_frame_l : forall m l args, documented_mutating m = false -> snd (call m l args) = l.
+Proof. intros m l args H; destruct m; try discriminate; reflexivity. Qed.
+Lemma nonmutating_frame_cb_l : forall m f l, snd (call_cb m f l) = l.
+Proof. intros m f l; destruct m; reflexivity. Qed.
+Lemma mutating_table_l : forall m, documented_mutating m = by_pointer m || (match m with MReverse => true | _ => false end).
 Proof. destruct m; reflexivity. Qed.
